@@ -27,26 +27,46 @@ func ParseContinueStatement(node *sitter.Node, sourcecode []byte) *model.Continu
 	return continueStmt
 }
 
+func isComment(node *sitter.Node) bool {
+	return node.Type() == "block_comment" || node.Type() == "line_comment"
+}
+
+// partAt returns the child at the given position among the children that are not comments
+// (comments may stand between any two tokens of a statement), or nil.
+func partAt(node *sitter.Node, position int) *sitter.Node {
+	for i := 0; i < int(node.ChildCount()); i++ {
+		child := node.Child(i)
+		if isComment(child) {
+			continue
+		}
+		if position == 0 {
+			return child
+		}
+		position--
+	}
+	return nil
+}
+
 func ParseYieldStatement(node *sitter.Node, sourcecode []byte) *model.YieldStmt {
 	yieldStmt := &model.YieldStmt{}
-	yieldStmtExpr := &model.Expr{NodeString: node.Child(1).Content(sourcecode)}
+	yieldStmtExpr := &model.Expr{NodeString: partAt(node, 1).Content(sourcecode)}
 	yieldStmt.Value = yieldStmtExpr
 	return yieldStmt
 }
 
 func ParseAssertStatement(node *sitter.Node, sourcecode []byte) *model.AssertStmt {
 	assertStmt := &model.AssertStmt{}
-	assertStmt.Expr = &model.Expr{NodeString: node.Child(1).Content(sourcecode)}
-	if node.Child(3) != nil && node.Child(3).Type() == "string_literal" {
-		assertStmt.Message = &model.Expr{NodeString: node.Child(3).Content(sourcecode)}
+	assertStmt.Expr = &model.Expr{NodeString: partAt(node, 1).Content(sourcecode)}
+	if message := partAt(node, 3); message != nil && message.Type() == "string_literal" {
+		assertStmt.Message = &model.Expr{NodeString: message.Content(sourcecode)}
 	}
 	return assertStmt
 }
 
 func ParseReturnStatement(node *sitter.Node, sourcecode []byte) *model.ReturnStmt {
 	returnStmt := &model.ReturnStmt{}
-	if node.Child(1) != nil && node.Child(1).IsNamed() {
-		returnStmt.Result = &model.Expr{NodeString: node.Child(1).Content(sourcecode)}
+	if result := partAt(node, 1); result != nil && result.IsNamed() {
+		returnStmt.Result = &model.Expr{NodeString: result.Content(sourcecode)}
 	}
 	return returnStmt
 }
@@ -54,6 +74,9 @@ func ParseReturnStatement(node *sitter.Node, sourcecode []byte) *model.ReturnStm
 func ParseBlockStatement(node *sitter.Node, sourcecode []byte) *model.BlockStmt {
 	blockStmt := &model.BlockStmt{}
 	for i := 0; i < int(node.ChildCount()); i++ {
+		if isComment(node.Child(i)) {
+			continue
+		}
 		singleBlockStmt := &model.Stmt{}
 		singleBlockStmt.NodeString = node.Child(i).Content(sourcecode)
 		blockStmt.Stmts = append(blockStmt.Stmts, *singleBlockStmt)
